@@ -626,7 +626,7 @@ impl Check for BufCheck {
     }
     fn budget(&self, tier: Tier) -> Budget {
         match tier {
-            Tier::Quick => Budget { runs: 150_000, max_secs: 40.0 },
+            Tier::Quick => Budget { runs: 100000, max_secs: 40.0 },
             Tier::Thorough => Budget { runs: 20_000_000, max_secs: 600.0 },
         }
     }
